@@ -24,7 +24,7 @@ W = "slot_testv_and_readv_and_writev"
 
 
 def plan(tier):
-    n = 60 if tier == "quick" else 2500
+    n = 120 if tier == "quick" else 2500
     return [{"kind": "hyp", "n": n} for _ in range(16)]
 
 
